@@ -142,6 +142,7 @@
     - stars and b tags
     - slashes and i tags
     - undescores and u tags
+    - a closing brace at the very end of an inline that is closed with }}
 
     We need to determine whether we escape the run of special chars at the start (prefix) or end (suffix) of the
     given string. Either way, we only escape the last char of the run, and only if the run is an odd length. This is
@@ -198,6 +199,10 @@
       )) or
       (substring($text, string-length($text)) = '_' and $odd-suffix and (
         (parent::a:u and not(following-sibling::*)) or following-sibling::*[1][self::a:u]
+      )) or
+      (substring($text, string-length($text)) = '}' and $odd-suffix and not(following-sibling::node()) and (
+        parent::a:abbr or parent::a:def or parent::a:del or parent::a:inline or parent::a:ins or parent::a:ref
+        or parent::a:remark or parent::a:sub or parent::a:sup or parent::a:term
       ))
     " />
 
